@@ -39,4 +39,29 @@ CHECKS = {
              "invariants and action properties over all interleavings within bounds; real histories with real ECDSA/BLS proofs (valid, "
              "forged, replayed), execution-layer add/remove lists and block times around both deadlines are validated step by step.",
         note=TRUSTED + "; proof-of-possession soundness assumed."),
+    "C11": dict(
+        level="model_checking",
+        technique='TLA+ spec (Locking.tla) + TLC exhaustive bounded block model + TLC trace validation of random real-app histories with conservation history variables',
+        text='MC_Locking explores every 4-block history over a small request universe with absences and evidence and checks locked = held + slashed + released, non-negativity and unlock <= asked; random histories of the real application are validated block by block (holdings, slashed, locking index, unlock queues) and the conservation law is evaluated on every observed state.',
+        note=TRUSTED + "; exact for small integer amounts (stated in the evidence)."),
+    "C12": dict(
+        level="model_checking",
+        technique='TLA+ spec (Locking.tla reward pool, distribution, claim) + TLC exhaustive bounded model + TLC trace validation of random real-app histories',
+        text="The emission schedule, the share computation (transcribed including the 18-digit rounding effect) and claims are specified; TLC checks granted + fees = pools + accrued + claimed exhaustively within bounds and on every observed state of real histories whose pools, accruals and queued payouts must equal the specification's.",
+        note=TRUSTED + "; exact for small integer amounts (stated in the evidence)."),
+    "C13": dict(
+        level="model_checking",
+        technique='TLA+ spec (Locking.tla ranking/top-K/EndBlock, CometBFT acceptance rules) + TLC exhaustive bounded model + TLC trace validation with a real cmttypes.ValidatorSet as acceptance oracle',
+        text="EndBlocker is specified as the descending walk over the ranking with the diff against the recorded set; TLC checks top-K, comet = record, ranking/index consistency, never-halting Begin/End and CometBFT acceptance exhaustively within bounds; on real histories the reported update set, ranking, set and statuses must equal the specification's and the real CometBFT validator-set code must accept every update.",
+        note=TRUSTED + "; exact for small integer amounts (stated in the evidence)."),
+    "C14": dict(
+        level="model_checking",
+        technique='TLA+ spec (Locking.tla votes/evidence/punish/unjail) + TLC exhaustive bounded model with action properties + TLC trace validation of random real-app histories',
+        text='Downtime accounting, slashing (whole amount when the slice truncates to zero), jailing, un-jailing by lock and tombstoning are specified; TLC checks tombstone-forever, jail-only-from-active and unjail-only-after-jail-and-thresholds as action properties; real histories with absences across window boundaries and evidence of every age are compared status by status, counter by counter.',
+        note=TRUSTED + "; exact for small integer amounts (stated in the evidence)."),
+    "C15": dict(
+        level="model_checking",
+        technique='TLA+ spec (Locking.tla unlock queue, maturation, delivery) + TLC exhaustive bounded model + TLC trace validation incl. burst histories beyond the delivery cap',
+        text="Every unlock carries its request time and maturity; TLC checks delivery time >= maturity, delivered-once and the exit rule exhaustively within bounds; on real histories both queues, the nonce and the decoded complete-unlock system transactions of each payload must equal the specification's, including bursts of more than 16 unlocks maturing together.",
+        note=TRUSTED + "; exact for small integer amounts (stated in the evidence)."),
 }
